@@ -84,14 +84,25 @@ class Ambiguous(Exception):
     pass
 
 
+def var_name(n):
+    from models.scan import decode
+
+    return decode(n, keep_simple=False).lower()
+
+
 def resolve_comp(c, variables):
-    if c and c[0] == 'var' and c[1].lower() in variables:
-        return list(variables[c[1].lower()])
+    if c and c[0] == 'var' and var_name(c[1]) in variables:
+        return list(variables[var_name(c[1])])
     if c and c[0] == 'func':
         out = []
         for a in c[2]:
             out.extend(resolve_comp(a, variables))
         return [[c[0], c[1], out, c[3]]]
+    if c and c[0] == 'calc':
+        out = []
+        for a in c[1]:
+            out.extend(resolve_comp(a, variables) if isinstance(a, (list, tuple)) else [a])
+        return [[c[0], out]]
     return [c]
 
 
@@ -354,7 +365,32 @@ EXTRA_SHEETS = [
     'a{color:red;COLOR:blue!important;c\\olor:green;color:gold !IMPORTANT;top:0.50px;left:-0.5em;width:#AABBCC;x-foo:1}',
     '@IMPORT "a.css";@import url(b.css) tv;@MEDIA print{a{top:0}}@x y;/*c*/a{/*in*/top:0;/*end*/}@page :first{margin:0}@font-face{font-family:x}',
     'a{top:.5px;left:0.5px;right:-.25em;bottom:10.50%;width:100.0px}b{color:#FFFFFF;background:#aabbcc #abcdef}',
+    # variables: declared twice in one block / in two blocks, referenced in other spellings, inside lists and functions, with fallbacks
+    '@variables{pad:1px;c:red;pad:2px}\na{padding:var(pad);color:var(c)}',
+    '@variables{pad:1px}@variables{pad:3px;W:1em}\na{padding:var(pad) var(W)}b{margin:var(PAD) var(w)}',
+    '@variables{MainColor:#fff;gap:2px}\na{color:var(MainColor);margin:var(GAP) var(\\gap)}b{width:calc(var(gap) * 2);top:var(nope, 3px)}',
+    '@variables{u:url(a.png);f:x, y}\na{background:var(u) no-repeat;font-family:var(f), serif}@media print{b{background-image:var(u)}}',
+    # DOMs that were edited after parsing: objects handed to the DOM instead of text
+    ('@variables{c:red;w:2px}\na{top:0}@font-face{font-family:x}', 'property-objects'),
+    ('@variables{c:red}\na{top:0}@media tv{b{left:0}}@page{margin:0}', 'property-objects'),
+    ('a{color:red}b{color:blue;top:0}', 'moved-properties'),
 ]
+
+
+def edit_dom(cssutils, sheet, how):
+    css = cssutils.css
+    if how == 'property-objects':
+        for r in all_rules(sheet):
+            if hasattr(r, 'style') and type(r).__name__ != 'CSSFontFaceRule':
+                r.style.setProperty(css.Property('color', 'var(c)'))
+                r.style.setProperty(css.Property('margin', 'var(w, 1px) 0', 'important'), replace=False)
+            elif type(r).__name__ == 'CSSFontFaceRule':
+                r.style.setProperty(css.Property('font-weight', 'bolder'))  # (not a valid descriptor value: validOnly drops it)
+                r.style.setProperty(css.Property('src', 'url(f.woff)'))
+    elif how == 'moved-properties':
+        a, b = [r for r in sheet.cssRules if type(r).__name__ == 'CSSStyleRule'][:2]
+        for prop in list(b.style.getProperties(all=True)):
+            a.style.setProperty(prop, replace=False)
 
 
 def run_worker(ctx):
@@ -367,8 +403,11 @@ def run_worker(ctx):
         if not ctx.mine(i):
             continue
         rng = ctx.rng('dom', i)
+        edit = None
         if i < len(EXTRA_SHEETS) * 3:
             src = EXTRA_SHEETS[i % len(EXTRA_SHEETS)]
+            if isinstance(src, tuple):
+                src, edit = src
         else:
             g = G.Gen(rng, namespaces=rng.random() < 0.5, max_stmts=5)
             stmts = g.sheet()
@@ -383,6 +422,10 @@ def run_worker(ctx):
         try:
             core.canonical_state(cssutils)
             sheet = parser.parseString(src)
+            if edit:
+                edit_dom(cssutils, sheet, edit)
+                src = src + ' /* edited: ' + edit + ' */'
+                ctx.count('dom.edited')
             default_out = sheet.cssText
             p_full = norm(P.project(sheet, with_valid=True))
         except Exception as e:
@@ -405,7 +448,13 @@ def run_worker(ctx):
 def replay(ctx, case):
     cssutils, _ = core.import_repo()
     core.canonical_state(cssutils)
-    sheet = cssutils.CSSParser().parseString(case['source'])
+    import re
+
+    src = case['source']
+    m = re.search(r' /\* edited: ([\w-]+) \*/$', src)
+    sheet = cssutils.CSSParser().parseString(src[: m.start()] if m else src)
+    if m:
+        edit_dom(cssutils, sheet, m.group(1))
     default_out = sheet.cssText
     p_full = norm(P.project(sheet, with_valid=True))
     judge(ctx, cssutils, sheet, case['source'], case.get('assignment', {}), case.get('preset'), default_out, p_full)
